@@ -2,5 +2,6 @@ pub mod ast;
 pub mod gen;
 pub mod print;
 pub mod reval;
+pub mod fromgluon;
 pub mod mutate;
 pub mod reduce;
